@@ -92,6 +92,10 @@ func (s *Service) Open() error {
 	s.update = make(chan struct{})
 	s.points = make(chan *coordinator.WritePointsRequest, 100)
 
+	// Ask for the change notification before the run loop takes its first
+	// look at the subscriptions: a change that arrives later is then noticed.
+	changed := s.MetaClient.WaitForDataChanged()
+
 	s.wg.Add(2)
 	go func() {
 		defer s.wg.Done()
@@ -99,7 +103,7 @@ func (s *Service) Open() error {
 	}()
 	go func() {
 		defer s.wg.Done()
-		s.waitForMetaUpdates()
+		s.waitForMetaUpdates(changed)
 	}()
 
 	s.Logger.Info("Opened service")
@@ -159,11 +163,16 @@ func (s *Service) Statistics(tags map[string]string) []models.Statistic {
 	return statistics
 }
 
-func (s *Service) waitForMetaUpdates() {
+func (s *Service) waitForMetaUpdates(ch chan struct{}) {
 	for {
-		ch := s.MetaClient.WaitForDataChanged()
 		select {
 		case <-ch:
+			// Fetch the next notification channel before the subscriptions
+			// are read again. Fetching it after the update loses every
+			// change made between the read and the fetch: the channel that
+			// change closed is never looked at, and the new subscription
+			// stays unknown until something else changes the meta data.
+			ch = s.MetaClient.WaitForDataChanged()
 			err := s.Update()
 			if err != nil {
 				s.Logger.Info("Error updating subscriptions", zap.Error(err))
